@@ -15,8 +15,9 @@ def layoutLowest (qfs : List QFrame) : Int :=
   let qfs := if qfs.isEmpty then [QFrame.crypto 0 0] else qfs
   qfs.foldl (fun m f => min m f.infoOff) 65535
 
-/-- resolved (start, length) of the CRYPTO frames of a layout over an `n` byte slice, `none` when a
-    frame is out of bounds -/
+/-- resolved (start, length) of the CRYPTO frames of a layout over an `n` byte slice, `none` when the
+    layout is outside its contract (negative field, or a frame starting beyond the slice). A Length
+    of 0, or one reaching beyond the slice, means "to the end of the slice". -/
 def layoutRanges (qfs : List QFrame) (n : Nat) : Option (List (Nat × Nat)) :=
   let low := layoutLowest qfs
   let qfs := if qfs.isEmpty then [QFrame.crypto 0 0] else qfs
@@ -25,10 +26,28 @@ def layoutRanges (qfs : List QFrame) (n : Nat) : Option (List (Nat × Nat)) :=
     | none, _ => none
     | some rs, .crypto off len =>
       let start := off - low
-      let length := if len = 0 then (n : Int) - start else len
-      if start < 0 ∨ length < 0 ∨ start + length > n then none else some (rs ++ [(start.toNat, length.toNat)])
+      let length := if len = 0 ∨ len > (n : Int) - start then (n : Int) - start else len
+      if start < 0 ∨ len < 0 ∨ start > n then none else some (rs ++ [(start.toNat, length.toNat)])
     | some rs, .padding l => if l < 0 then none else some rs
     | some rs, .ping => some rs) (some [])
+
+/-- every field of the layout is non-negative (the documented parameter range) -/
+def layoutNonneg (qfs : List QFrame) : Bool :=
+  qfs.all fun f => match f with
+    | .crypto off len => decide (0 ≤ off) && decide (0 ≤ len)
+    | .padding l => decide (0 ≤ l)
+    | .ping => true
+
+def maxLayoutOffset (qfs : List QFrame) : Int :=
+  qfs.foldl (fun m f => max m f.infoOff) 0
+
+/-- no CRYPTO frame announces or carries anything that is not a byte of `src` at its true offset,
+    inside `[lo,hi)` (empty frames carry nothing and are not judged) -/
+def noForeignBytes (src : List UInt8) (lo hi : Nat) (payload : List UInt8) : Bool :=
+  match readFrames payload with
+  | none => false
+  | some fs => (cryptoOf fs).all fun c =>
+      c.2.isEmpty || (sliceEq src 0 c.1 c.2 && decide (lo ≤ c.1) && decide (c.1 + c.2.length ≤ hi))
 
 /-- "Multiple crypto frames in a single packet must not overlap and must make up an entire crypto
     stream continuously" — here: every frame in bounds and together they cover the slice (overlap
